@@ -258,3 +258,172 @@ Proof.
   eexists. split; [reflexivity|].
   split; cbn [w_n w_bits]; [lia | rewrite E2; reflexivity].
 Qed.
+
+Lemma flush_spec : forall st pend, winv st pend -> w_flush st = t81_emit pend [].
+Proof.
+  intros st pend [Hw Hp]. unfold w_flush. cbn [t81_emit].
+  destruct (Z.ltb_spec 0 (w_n st)) as [Hpos|Hz].
+  - set (k := 8 - w_n st).
+    assert (Hk : 0 < k < 8) by (unfold k; lia).
+    assert (Hlen : length pend = Z.to_nat (w_n st)) by (rewrite Hp; apply bits_of_length).
+    assert (E : pend ++ repeat true (8 - length pend) =
+                bits_of 8 (Z.lor (shl32 (w_bits st) k) (u32 (shl32 1 k - 1)))).
+    { change (u32 (shl32 1 k - 1)) with (mask32 k).
+      rewrite <- (Z.land_diag (mask32 k)) at 1. rewrite (mask32_ones k) at 1 by lia.
+      replace 8%nat with (Z.to_nat (w_n st + k)) by (unfold k; lia).
+      rewrite new_bits_spec by lia. rewrite <- Hp. f_equal.
+      replace (Z.ones k) with (Z.ones (Z.of_nat (Z.to_nat k))) by (f_equal; lia).
+      rewrite bits_of_ones by lia. f_equal. unfold k. lia. }
+    destruct pend as [|b pend']; [simpl in Hlen; lia|].
+    rewrite E. rewrite <- (app_nil_r (bits_of 8 _)). rewrite pack_bits8. cbn [fst].
+    rewrite pack_short by (simpl; lia). cbn [fst]. symmetry. apply app_nil_r.
+  - assert (w_n st = 0) by lia. rewrite H in Hp. cbn in Hp. subst pend. reflexivity.
+Qed.
+
+(* ---------- the reader ---------- *)
+Definition bytes_ok (bs : list Z) : Prop := Forall (fun b => 0 <= b < 256) bs.
+Definition bits8 (bs : list Z) : list bool := flat_map (bits_of 8) bs.
+
+Lemma bits8_app : forall a b, bits8 (a ++ b) = bits8 a ++ bits8 b.
+Proof. intros. unfold bits8. apply flat_map_app. Qed.
+Lemma bits8_length : forall bs, length (bits8 bs) = (8 * length bs)%nat.
+Proof. induction bs; [reflexivity|]. unfold bits8 in *. cbn [flat_map]. rewrite app_length, IHbs, bits_of_length. simpl. lia. Qed.
+
+(* the reader state stands for the bit sequence B (all of it, including what will never be read) *)
+Definition rep (st : rstate) (B : list bool) : Prop :=
+  exists bs tail, r_rest st = stuff bs ++ tail /\ bytes_ok bs /\ 0 <= r_n st <= 7 /\
+                  B = bits_of (Z.to_nat (r_n st)) (r_bits st) ++ bits8 bs.
+
+Lemma rep_init : forall bs tail, bytes_ok bs -> rep (r_init (stuff bs ++ tail)) (bits8 bs).
+Proof. intros. exists bs, tail. cbn. repeat split; try lia; assumption. Qed.
+
+Lemma next_byte_stuff : forall b bs tail, 0 <= b < 256 ->
+  next_byte (stuff (b :: bs) ++ tail) = Some (b, stuff bs ++ tail).
+Proof.
+  intros. unfold stuff. cbn [flat_map]. unfold write_byte at 1.
+  destruct (Z.eqb_spec b 255) as [E|E].
+  - subst. reflexivity.
+  - cbn [app next_byte]. destruct (Z.eqb_spec b 255); [contradiction|reflexivity].
+Qed.
+
+Lemma bits_of_S : forall n v, bits_of (S n) v = Z.testbit v (Z.of_nat n) :: bits_of n v.
+Proof. reflexivity. Qed.
+
+Lemma cons_eq_inv : forall (a b : bool) l m, a :: l = b :: m -> a = b /\ l = m.
+Proof. intros a b l m H. split; [exact (f_equal (hd false) H) | exact (f_equal (@tl bool) H)]. Qed.
+
+Lemma read_bit_spec : forall st b B, rep st (b :: B) ->
+  exists st', read_bit st = Some (b, st') /\ rep st' B.
+Proof.
+  intros st b B (bs & tail & Hrest & Hbs & Hn & HB). unfold read_bit.
+  destruct (Z.eqb_spec (r_n st) 0) as [E|E].
+  - rewrite E in HB. cbn [Z.to_nat t81_to_bits app] in HB.
+    destruct bs as [|x bs]; [discriminate|].
+    inversion Hbs as [|? ? Hx Hbs']; subst.
+    rewrite Hrest, next_byte_stuff by assumption.
+    unfold bits8 in HB. cbn [flat_map] in HB.
+    change (bits_of 8 x) with (Z.testbit x (Z.of_nat 7) :: bits_of 7 x) in HB.
+    cbn [app] in HB. apply cons_eq_inv in HB. destruct HB as [Hb HB'].
+    eexists. split.
+    + rewrite <- Z.bit0_odd, Z.shiftr_spec by lia. rewrite Hb. reflexivity.
+    + exists bs, tail. cbn [r_rest r_n r_bits]. repeat split; try lia; try assumption.
+  - assert (Hpos : 0 < r_n st) by lia.
+    replace (Z.to_nat (r_n st)) with (S (Z.to_nat (r_n st - 1))) in HB by lia.
+    rewrite bits_of_S in HB. cbn [app] in HB. apply cons_eq_inv in HB. destruct HB as [Hb HB'].
+    eexists. split.
+    + rewrite <- Z.bit0_odd, Z.shiftr_spec by lia. rewrite Hb. f_equal. f_equal. f_equal. f_equal. lia.
+    + exists bs, tail. cbn [r_rest r_n r_bits]. repeat split; try lia; assumption.
+Qed.
+
+Lemma app_eq_len : forall {A} (a c b d : list A),
+  a ++ b = c ++ d -> length a = length c -> a = c /\ b = d.
+Proof.
+  induction a as [|x a IH]; intros c b d H L; destruct c as [|y c]; try discriminate.
+  - split; [reflexivity | exact H].
+  - cbn [app] in H. injection H as Hx H. cbn [length] in L.
+    destruct (IH c b d H ltac:(lia)) as [E1 E2]. subst. split; reflexivity.
+Qed.
+
+Lemma fill_bits_spec : forall bits m b, 0 <= m -> m + 8 < 32 -> 0 <= b < 256 ->
+  bits_of (Z.to_nat (m + 8)) (Z.lor (shl32 bits 8) b) = bits_of (Z.to_nat m) bits ++ bits_of 8 b.
+Proof.
+  intros bits m b Hm Hs Hb.
+  assert (E : b = Z.land b (mask32 8)).
+  { rewrite mask32_ones by lia. rewrite Z.land_ones by lia. symmetry. apply Z.mod_small. exact Hb. }
+  rewrite E at 1. rewrite new_bits_spec by lia. reflexivity.
+Qed.
+
+Lemma r_fill_spec : forall k bits m bs1 bs2 tail, length bs1 = k -> bytes_ok bs1 -> 0 <= m ->
+  m + 8 * Z.of_nat k < 32 ->
+  exists bits', r_fill k bits m (stuff (bs1 ++ bs2) ++ tail) =
+                  Some (bits', m + 8 * Z.of_nat k, stuff bs2 ++ tail) /\
+                bits_of (Z.to_nat (m + 8 * Z.of_nat k)) bits' = bits_of (Z.to_nat m) bits ++ bits8 bs1.
+Proof.
+  induction k; intros bits m bs1 bs2 tail Hl Hb Hm Hs.
+  - destruct bs1; [|discriminate]. cbn [r_fill app]. exists bits. split.
+    + f_equal. f_equal. f_equal. lia.
+    + replace (m + 8 * Z.of_nat 0) with m by lia. cbn. rewrite app_nil_r. reflexivity.
+  - destruct bs1 as [|b bs1]; [discriminate|]. inversion Hb as [|? ? Hb0 Hb1]; subst.
+    cbn [r_fill]. cbn [app]. rewrite next_byte_stuff by assumption.
+    destruct (IHk (Z.lor (shl32 bits 8) b) (m + 8) bs1 bs2 tail) as (bits' & E1 & E2);
+      [simpl in Hl; lia | assumption | lia | lia |].
+    exists bits'. split.
+    + rewrite E1. f_equal. f_equal. f_equal. lia.
+    + replace (m + 8 * Z.of_nat (S k)) with (m + 8 + 8 * Z.of_nat k) by lia.
+      rewrite E2. rewrite fill_bits_spec by lia. unfold bits8. cbn [flat_map].
+      rewrite app_assoc. reflexivity.
+Qed.
+
+Lemma bytes_ok_firstn : forall k l, bytes_ok l -> bytes_ok (firstn k l).
+Proof.
+  induction k; intros l H; [constructor|]. destruct l; [constructor|].
+  inversion H; subst. constructor; [assumption | apply IHk; assumption].
+Qed.
+Lemma bytes_ok_skipn : forall k l, bytes_ok l -> bytes_ok (skipn k l).
+Proof.
+  induction k; intros l H; [exact H|]. destruct l; [constructor|].
+  inversion H; subst. apply IHk; assumption.
+Qed.
+
+Lemma read_bits_spec : forall st n W B, 0 < n <= 16 -> rep st (W ++ B) -> length W = Z.to_nat n ->
+  exists st', read_bits st n = Some (bval W, st') /\ rep st' B.
+Proof.
+  intros st n W B Hn (bs & tail & Hrest & Hbs & Hrn & HB) HW. unfold read_bits.
+  destruct (Z.eqb_spec n 0); [lia|].
+  set (k := if r_n st <? n then Z.to_nat (Z.shiftr (n - r_n st + 7) 3) else 0%nat).
+  assert (Hlen : (Z.to_nat n <= Z.to_nat (r_n st) + 8 * length bs)%nat).
+  { apply (f_equal (@length bool)) in HB. rewrite !app_length, bits_of_length, bits8_length in HB. lia. }
+  assert (Hk : (k <= length bs)%nat /\ n <= r_n st + 8 * Z.of_nat k < n + 8).
+  { unfold k. destruct (Z.ltb_spec (r_n st) n) as [Hlt|Hge].
+    - rewrite Z.shiftr_div_pow2 by lia. change (2 ^ 3) with 8.
+      pose proof (Z.div_mod (n - r_n st + 7) 8 ltac:(lia)) as Hdm.
+      pose proof (Z.mod_pos_bound (n - r_n st + 7) 8 ltac:(lia)) as Hr.
+      assert (0 <= (n - r_n st + 7) / 8) by (apply Z.div_pos; lia).
+      rewrite Z2Nat.id by lia. split; [|lia]. lia.
+    - split; [lia|]. lia. }
+  destruct Hk as [Hk1 Hk2].
+  rewrite Hrest.
+  replace (stuff bs) with (stuff (firstn k bs ++ skipn k bs)) by (rewrite firstn_skipn; reflexivity).
+  assert (Hb1 : bytes_ok (firstn k bs)) by (apply bytes_ok_firstn; assumption).
+  destruct (r_fill_spec k (r_bits st) (r_n st) (firstn k bs) (skipn k bs) tail) as (bits' & E1 & E2);
+    [apply firstn_length_le; lia | assumption | lia | lia |].
+  rewrite E1.
+  set (nb := r_n st + 8 * Z.of_nat k) in *.
+  set (nb' := nb - n).
+  assert (Hsplit : bits_of (Z.to_nat nb) bits' =
+                   bits_of (Z.to_nat n) (Z.shiftr bits' nb') ++ bits_of (Z.to_nat nb') bits').
+  { replace (Z.to_nat nb) with (Z.to_nat n + Z.to_nat nb')%nat by (unfold nb'; lia).
+    rewrite bits_of_app. rewrite Z2Nat.id by (unfold nb'; lia). reflexivity. }
+  assert (HB2 : W ++ B = bits_of (Z.to_nat n) (Z.shiftr bits' nb') ++
+                         (bits_of (Z.to_nat nb') bits' ++ bits8 (skipn k bs))).
+  { rewrite app_assoc, <- Hsplit, E2, <- app_assoc, <- bits8_app, firstn_skipn. exact HB. }
+  apply app_eq_len in HB2; [|rewrite bits_of_length; exact HW]. destruct HB2 as [EW EB].
+  eexists. split.
+  - f_equal. f_equal. rewrite mask32_ones by lia. rewrite Z.land_ones by lia.
+    rewrite EW, bval_bits_of. rewrite Z2Nat.id by lia. reflexivity.
+  - exists (skipn k bs), tail. cbn [r_rest r_n r_bits]. repeat split.
+    + apply bytes_ok_skipn; assumption.
+    + unfold nb'. lia.
+    + unfold nb'. lia.
+    + exact EB.
+Qed.
